@@ -174,6 +174,11 @@ func (f *Fosite) DefaultClientAuthenticationStrategy(ctx context.Context, r *htt
 			err = ErrInvalidClient.WithHint("Unable to type assert the expiry time from claims. This should not happen as we validate the expiry time already earlier with token.Claims.Valid()")
 		}
 
+		if err == nil && expiry == 0 {
+			// token.Claims.Valid() treats a zero expiry as "not set" and lets it pass.
+			err = ErrInvalidClient.WithHint("Claim 'exp' from 'client_assertion' must be set to a non-zero expiry time.")
+		}
+
 		if err != nil {
 			return nil, errorsx.WithStack(err)
 		}
